@@ -37,7 +37,7 @@ TOKENS = {
     'byteorder': ['LITTLE', '<', '>', 'Little', 'native', '=', '', 'littleendian'],
     'arrayorder': ['c', 'f', 'K', 'A', 'CF', ''],
 }
-SHAPES = ['scalar', 'string', 'nested', 'float', 'negative', 'null', 'dict', 'str-entries']
+SHAPES = ['scalar', 'string', 'nested', 'float', 'negative', 'null', 'dict', 'str-entries', 'zero-last-axis', 'zero-extra-axis']
 SIZES = ['missing', '-all', '-item', '-1', '+1', '+item', '+k']
 
 
@@ -113,6 +113,10 @@ def apply_corruption(corr, sub):
                 dj['shape'] = [-shp[0]] + shp[1:] if shp[0] else [-1] + shp[1:]
             else:
                 dj['shape'] = [-shp[0], -shp[1]] + shp[2:]      # product still matches the file
+        elif how in ('zero-last-axis', 'zero-extra-axis'):
+            if n == 0:
+                return False      # an empty data file is consistent with any shape that has a zero extent
+            dj['shape'] = (shp[:-1] + [0]) if how == 'zero-last-axis' and len(shp) > 1 else shp + [0]
         else:
             dj['shape'] = {'scalar': n, 'string': str(shp), 'nested': [shp], 'float': [float(x) for x in shp], 'null': None,
                            'dict': {'0': shp[0]}, 'str-entries': [str(x) for x in shp]}[how]
@@ -181,11 +185,15 @@ def execute(ctx, spec):
             top, sub = pathlib.Path(top), pathlib.Path(sub)       # the by-path entry points take str and Path alike
             out.cls('form:Path')
         if not only_open:
-            if ragged:
-                must_raise(out, f'RaggedArray:{tag}', lambda: darr.RaggedArray(top), 'RaggedArray(path)')
-                must_raise(out, f'Array(sub):{tag}', lambda: darr.Array(sub), 'Array(subarray path)')
-            else:
-                must_raise(out, f'Array:{tag}', lambda: darr.Array(top), 'Array(path)')
+            for mode in ('r', 'r+'):       # read-write opening must not 'repair' the mismatch either (NumPy pads short files)
+                if ragged:
+                    must_raise(out, f'RaggedArray:{mode}:{tag}', lambda: darr.RaggedArray(top, accessmode=mode), f'RaggedArray(path, {mode!r})')
+                    must_raise(out, f'Array(sub):{mode}:{tag}', lambda: darr.Array(sub, accessmode=mode), f'Array(subarray path, {mode!r})')
+                else:
+                    must_raise(out, f'Array:{mode}:{tag}', lambda: darr.Array(top, accessmode=mode), f'Array(path, {mode!r})')
+                if snapshot(d) != before:
+                    out.viol('open-attempt-changed-files', f'{mode}:{tag}', '; '.join(diff(before, snapshot(d))))
+                    return out
         must_raise(out, f'open:{tag}', lambda: darr.open(top), 'darr.open(path)')
         if not only_open:
             calls = [('delete', (lambda: darr.delete_raggedarray(top)) if ragged else (lambda: darr.delete_array(top))),
